@@ -219,6 +219,7 @@ type node struct {
 	txCache map[string]*coin.Transaction
 	bkCache []blockCand
 	bkDone  bool
+	deepVerify bool // also run visor.CheckDatabase in the state oracle (C04, C07)
 	// Log of ux ids ever removed from the model (for C02 at-most-once); kept in the model itself (Created.NSpent).
 }
 
